@@ -592,7 +592,9 @@ func (em *emitter) emitCallNode(call *ast.Call, goStmt bool, deferStmt bool, toF
 			em.fb.emitGo()
 		}
 		if deferStmt {
-			panic(internalError("not implemented"))
+			args := stackDifference(em.fb.currentStackShift(), stackShift)
+			em.fb.emitDefer(method, 0, stackShift, args, funTi.Type)
+			return regs, types
 		}
 		em.fb.emitCallIndirect(method, 0, stackShift, call.Pos(), funTi.Type, toFormat)
 		return regs, types
